@@ -48,6 +48,39 @@ theorem hintProcessing_eq (pool : List WP) (hint : Option Nat) (key : Nat) :
   | none => rfl
   | some h => simp only [Option.bind_some]; cases getW pool h <;> rfl
 
+theorem hintPending_eq (pool : List WP) (hint : Option Nat) (key : Nat) :
+    hintPending pool hint key = match hint.bind (fun x => getW pool x) with
+      | some p => p.hasPendingKey key
+      | _ => false := by
+  unfold hintPending
+  cases hint with
+  | none => rfl
+  | some h => simp only [Option.bind_some]; cases getW pool h <;> rfl
+
+/-- round-robin (F10, fixed): the hint is the router's own last pick, and that slot exists -/
+theorem hintLast_eq (pool : List WP) (last : Nat) (hint : Option Nat) :
+    hintLast pool last hint = match hint.bind (fun x => getW pool x) with
+      | some _ => decide (hint = some last)
+      | _ => false := by
+  unfold hintLast
+  cases hint with
+  | none => rfl
+  | some h =>
+    simp only [Option.bind_some]
+    have hw : hasW pool h = (getW pool h).isSome := by
+      unfold hasW getW
+      induction pool with
+      | nil => rfl
+      | cons x xs ih =>
+        simp only [List.any_cons, List.find?_cons]
+        cases hx : (x.wid == h) <;> simp [ih]
+    rw [hw]
+    cases getW pool h with
+    | none => rfl
+    | some p =>
+      simp only [Option.isSome_some, Bool.true_and, Option.some.injEq]
+      by_cases hl : h = last <;> simp [hl]
+
 /-- `pool.iter().find(|(_, w)| f(w)).map(|(a, _)| *a)` = `find?` then the slot id -/
 theorem find_pairs (pool : List WP) (f : WP → Bool) :
     Option.map (fun (x : Nat × WP) => x.1) (List.find? (fun (x : Nat × WP) => f x.2) (pool.map fun p => (p.wid, p)))
